@@ -214,7 +214,7 @@ impl Property for C17 {
         ]
     }
     fn cases(&self, tier: Tier) -> usize {
-        tier.pick(6000, 200_000)
+        tier.pick(15000, 200_000)
     }
     fn strategy(&self, tier: Tier) -> BoxedStrategy<Case> {
         strategy(tier)
